@@ -9,6 +9,7 @@ package otr3
 // Nothing in here is referenced by the library itself.
 
 import (
+	"encoding/binary"
 	"math/big"
 	"reflect"
 	"strings"
@@ -374,4 +375,148 @@ func verifWalk(v reflect.Value, path string, visit func(string, []byte), seen ma
 			verifWalk(v.MapIndex(k), path+"{}", visit, seen, depth+1)
 		}
 	}
+}
+
+// VerifSerialize serialises one protocol structure from its fields (byte strings) and numbers,
+// with the library's own serialiser.  kinds: dhcommit(enc,hash) dhkey(gy) revealsig(r,encsig,mac)
+// sig(encsig,mac) data(y,enc,mac,oldmac...; flag,skid,rkid,ctr) tlv(value; type) plain(message,
+// tlvvalue...; tlvtype...) smp1(question?,mpi x6) smp2(mpi x11) smp3(mpi x8) smp4(mpi x3)
+func VerifSerialize(kind string, version int, f [][]byte, n []uint64) []byte {
+	var v otrVersion = otrV3{}
+	if version == 2 {
+		v = otrV2{}
+	}
+	bi := func(b []byte) *big.Int { return new(big.Int).SetBytes(b) }
+	switch kind {
+	case "dhcommit":
+		return dhCommit{encryptedGx: f[0], yhashedGx: f[1]}.serialize()
+	case "dhkey":
+		return dhKey{gy: bi(f[0])}.serialize()
+	case "revealsig":
+		m := revealSig{encryptedSig: AppendData(nil, f[1]), macSig: f[2]}
+		copy(m.r[:], f[0])
+		return m.serialize(v)
+	case "sig":
+		return sig{encryptedSig: AppendData(nil, f[0]), macSig: f[1]}.serialize(v)
+	case "data":
+		m := dataMsg{flag: byte(n[0]), senderKeyID: uint32(n[1]), recipientKeyID: uint32(n[2]), y: bi(f[0]), encryptedMsg: f[1], authenticator: f[2]}
+		binary.BigEndian.PutUint64(m.topHalfCtr[:], n[3])
+		for _, k := range f[3:] {
+			m.oldMACKeys = append(m.oldMACKeys, macKey(k))
+		}
+		return m.serialize(v)
+	case "tlv":
+		return tlv{tlvType: uint16(n[0]), tlvLength: uint16(len(f[0])), tlvValue: f[0]}.serialize()
+	case "plain":
+		m := plainDataMsg{message: f[0]}
+		for i, val := range f[1:] {
+			m.tlvs = append(m.tlvs, tlv{tlvType: uint16(n[i]), tlvLength: uint16(len(val)), tlvValue: val})
+		}
+		return m.serialize()
+	case "smp1":
+		m := smp1Message{g2a: bi(f[1]), c2: bi(f[2]), d2: bi(f[3]), g3a: bi(f[4]), c3: bi(f[5]), d3: bi(f[6])}
+		if len(f[0]) > 0 {
+			m.hasQuestion, m.question = true, string(f[0])
+		}
+		return m.tlv().serialize()
+	case "smp2":
+		return smp2Message{g2b: bi(f[0]), c2: bi(f[1]), d2: bi(f[2]), g3b: bi(f[3]), c3: bi(f[4]), d3: bi(f[5]), pb: bi(f[6]), qb: bi(f[7]), cp: bi(f[8]), d5: bi(f[9]), d6: bi(f[10])}.tlv().serialize()
+	case "smp3":
+		return smp3Message{pa: bi(f[0]), qa: bi(f[1]), cp: bi(f[2]), d5: bi(f[3]), d6: bi(f[4]), ra: bi(f[5]), cr: bi(f[6]), d7: bi(f[7])}.tlv().serialize()
+	case "smp4":
+		return smp4Message{rb: bi(f[0]), cr: bi(f[1]), d7: bi(f[2])}.tlv().serialize()
+	}
+	return nil
+}
+
+// VerifParse parses one protocol structure with the library's own parser and returns its fields
+// in the order VerifSerialize takes them.
+func VerifParse(kind string, version int, b []byte) (f [][]byte, n []uint64, ok bool) {
+	var v otrVersion = otrV3{}
+	if version == 2 {
+		v = otrV2{}
+	}
+	bb := func(x *big.Int) []byte {
+		if x == nil {
+			return nil
+		}
+		return x.Bytes()
+	}
+	switch kind {
+	case "dhcommit":
+		m := dhCommit{}
+		if m.deserialize(b) != nil {
+			return nil, nil, false
+		}
+		return [][]byte{m.encryptedGx, m.yhashedGx}, nil, true
+	case "dhkey":
+		m := dhKey{}
+		if m.deserialize(b) != nil {
+			return nil, nil, false
+		}
+		return [][]byte{bb(m.gy)}, nil, true
+	case "revealsig":
+		m := revealSig{}
+		if m.deserialize(b, v) != nil {
+			return nil, nil, false
+		}
+		return [][]byte{append([]byte{}, m.r[:]...), m.encryptedSig, m.macSig}, nil, true
+	case "sig":
+		m := sig{}
+		if m.deserialize(b) != nil {
+			return nil, nil, false
+		}
+		return [][]byte{m.encryptedSig, m.macSig}, nil, true
+	case "data":
+		m := dataMsg{}
+		if m.deserialize(b, v) != nil {
+			return nil, nil, false
+		}
+		f = [][]byte{bb(m.y), m.encryptedMsg, m.authenticator}
+		for _, k := range m.oldMACKeys {
+			f = append(f, k)
+		}
+		return f, []uint64{uint64(m.flag), uint64(m.senderKeyID), uint64(m.recipientKeyID), binary.BigEndian.Uint64(m.topHalfCtr[:])}, true
+	case "tlv":
+		m := tlv{}
+		if m.deserialize(b) != nil {
+			return nil, nil, false
+		}
+		return [][]byte{m.tlvValue}, []uint64{uint64(m.tlvType), uint64(m.tlvLength)}, true
+	case "plain":
+		m := plainDataMsg{}
+		if m.deserialize(b) != nil {
+			return nil, nil, false
+		}
+		f = [][]byte{m.message}
+		for _, t := range m.tlvs {
+			f = append(f, t.tlvValue)
+			n = append(n, uint64(t.tlvType))
+		}
+		return f, n, true
+	case "smp1", "smp2", "smp3", "smp4":
+		t := tlv{}
+		if t.deserialize(b) != nil {
+			return nil, nil, false
+		}
+		msg, good := t.smpMessage()
+		if !good {
+			return nil, nil, false
+		}
+		switch m := msg.(type) {
+		case smp1Message:
+			q := []byte{}
+			if m.hasQuestion {
+				q = []byte(m.question)
+			}
+			return [][]byte{q, bb(m.g2a), bb(m.c2), bb(m.d2), bb(m.g3a), bb(m.c3), bb(m.d3)}, []uint64{uint64(t.tlvType)}, true
+		case smp2Message:
+			return [][]byte{bb(m.g2b), bb(m.c2), bb(m.d2), bb(m.g3b), bb(m.c3), bb(m.d3), bb(m.pb), bb(m.qb), bb(m.cp), bb(m.d5), bb(m.d6)}, nil, true
+		case smp3Message:
+			return [][]byte{bb(m.pa), bb(m.qa), bb(m.cp), bb(m.d5), bb(m.d6), bb(m.ra), bb(m.cr), bb(m.d7)}, nil, true
+		case smp4Message:
+			return [][]byte{bb(m.rb), bb(m.cr), bb(m.d7)}, nil, true
+		}
+	}
+	return nil, nil, false
 }
